@@ -44,6 +44,7 @@ var gens = []generator{
 	{file: "LocComplete.lean", src: "location.go (asComplete)", run: genLocComplete},
 	{file: "LocStrand.lean", src: "location.go (CheckStrand, checkStrand)", run: genLocStrand},
 	{file: "Cli.lean", src: "cmd/gts/*.go", run: genCli},
+	{file: "CliWriters.lean", src: "cmd/gts/*.go (functions that write sequences), seqio/filetype.go, seqio/writer.go", run: genCliWriters},
 	{file: "Date.lean", src: "seqio/date.go", run: genDate},
 	{file: "MolTop.lean", src: "molecule.go, topology.go", run: genMolTop},
 	{file: "GoBytes.lean", src: "(fixed prelude: Go's byte-slice operations)", run: genGoBytes},
